@@ -314,6 +314,7 @@ func registerGhostIO(e *Engine) {
 	g["ioFailed"] = func(x *Exec, st *State, e *ast.CallExpr) []Val {
 		return []Val{{Typ: types.Typ[types.Bool], T: x.gcomp(st, "ghost.iofail")}}
 	}
+	g["envFailed"] = g["ioFailed"]
 	fileID := func(x *Exec, st *State, a ast.Expr) *Term {
 		f := x.expr(st, a)
 		return x.gsel(st, "ghost.fid", f.T)
